@@ -56,14 +56,16 @@ class MessageSerializer(object):
     for k, v in ctx.items():
       if not isinstance(k, string_types):
         raise NotImplementedError("Unsupported key type in context")
-      k_len = len(k)
-      buf.write(pack('!h%ds' % k_len, k_len, k.encode('utf-8')))
+      k_bytes = k.encode('utf-8')
+      k_len = len(k_bytes)
+      buf.write(pack('!h%ds' % k_len, k_len, k_bytes))
       if isinstance(v, Deadline):
         buf.write(pack('!h', 16))
         buf.write(pack('!qq', v._ts, v._timeout))
       elif isinstance(v, string_types):
-        v_len = len(v)
-        buf.write(pack('!h%ds' % v_len, v_len, v.encode('utf-8')))
+        v_bytes = v.encode('utf-8')
+        v_len = len(v_bytes)
+        buf.write(pack('!h%ds' % v_len, v_len, v_bytes))
       else:
         raise NotImplementedError("Unsupported value type in context.")
 
